@@ -218,8 +218,7 @@ def run_shard(ctx):
             ctx.ev()
             try:
                 run_case(case, ctx)
-                if ctx.evaluations % 701 == 0:
-                    ctx.sample(case)
+                ctx.maybe_sample(case, 701)
             except Abandon:
                 pass
         return t
